@@ -187,12 +187,26 @@ Definition keys_of (ov : option bytes) (p' : bytes) (q : option bytes) : ckey * 
 Definition cache_lookup (on : bool) (kpq kp : ckey) (cache : cache_t) : option cresp :=
   if on then match cache_get kpq cache with Some e => Some e | None => cache_get kp cache end else None.
 
+(** [Cors::is_part_of_origin]: the request is of the same origin as its [Origin] header when the scheme and the
+    AUTHORITY of its URI equal the header's.  The URI is "http://localhost" ++ target: a target that does not
+    start with '/', '?' or '#' lengthens the authority, so an [Origin] of the site itself (kinds 1, 4) is then a
+    foreign one (kinds 2, 3). *)
+Fixpoint take_authority (s : bytes) : bytes :=
+  match s with
+  | [] => []
+  | c :: r => if (c =? 47) || (c =? 63) || (c =? 35) then [] else c :: take_authority r
+  end.
+Definition eff_kind (target : bytes) (okind : N) : N :=
+  if is_empty (take_authority target) then okind
+  else if okind =? 1 then 2 else if okind =? 4 then 3 else okind.
+
 (** one request: the answer as the harness reports it and the new state *)
-Definition step_request (c : pcfg) (st : pstate) (m target : bytes) (okind : N) : xval * pstate :=
+Definition step_request (c : pcfg) (st : pstate) (m target : bytes) (okind0 : N) : xval * pstate :=
   match target_uri target with
   | None => (XL [XN 96], st)
   | Some (p, q) =>
       let h := pc_host c in
+      let okind := eff_kind target okind0 in
       let ov := override_of (pc_default_ext c) m okind in
       let p' := primed_path h p in
       let '(kpq, kp) := keys_of ov p' q in
